@@ -53,9 +53,15 @@ func sp(s string) *string { return &s }
 
 // IntVals / StrVals are the value domains of the nullable columns (nil = NULL).
 var IntVals = []*int{ip(1), ip(2), nil}
-var StrVals = []*string{sp("x"), sp("y"), nil}
 
-// Rows27 returns all 27 combinations of a,b in {1,2,NULL}, s in {'x','y',NULL};
+// The second text value contains the characters that steer gorm's
+// classification of raw strings ('@' = named argument, '?' = placeholder), so
+// that conditions mentioning them in a quoted literal select real rows.
+const YVal = "y@v?w"
+
+var StrVals = []*string{sp("x"), sp(YVal), nil}
+
+// Rows27 returns all 27 combinations of a,b in {1,2,NULL}, s in {'x','y@v?w',NULL};
 // id = 1 + 9*ai + 3*bi + si.
 func Rows27() []Row {
 	var out []Row
